@@ -68,7 +68,7 @@ fn ansi_to_yansi_color(color: anstyle::AnsiColor) -> yansi::Color {
         anstyle::AnsiColor::BrightRed => yansi::Color::BrightRed,
         anstyle::AnsiColor::BrightGreen => yansi::Color::BrightGreen,
         anstyle::AnsiColor::BrightYellow => yansi::Color::BrightYellow,
-        anstyle::AnsiColor::BrightBlue => yansi::Color::BrightBlack,
+        anstyle::AnsiColor::BrightBlue => yansi::Color::BrightBlue,
         anstyle::AnsiColor::BrightMagenta => yansi::Color::BrightMagenta,
         anstyle::AnsiColor::BrightCyan => yansi::Color::BrightCyan,
         anstyle::AnsiColor::BrightWhite => yansi::Color::BrightWhite,
